@@ -849,6 +849,121 @@ PROPS["C08"] = {
     "assumptions": ["sequentially consistent memory", "threads interleave only at schedule points placed where no lock is held"],
 }
 
+# ---- C11 (engine det) -------------------------------------------------------------------------------------------
+def det_gen(kind, quick, thorough):
+    return lambda tier, seed: [[f"gen-{kind}", seed, quick if tier == "quick" else thorough]]
+
+
+def det_shape(case, out):
+    # distinct = (case kind, sub-kind / api, size class of the case, outcome class)
+    t = case.split(" ")
+    o = " ".join(out.split(" ")[:2])
+    if t[0] == "hdr":
+        n = 0 if t[5] == "_" else len([c for c in t[5].split(";") if c.startswith("h:")])
+        return ("hdr", t[1], n, o)
+    if t[0] == "eq":
+        if t[1] == "resp":
+            na = 0 if t[2].split(":")[1] == "_" else len(t[2].split(":")[1].split(","))
+            nb = 0 if t[3].split(":")[1] == "_" else len(t[3].split(":")[1].split(","))
+            return ("eq", "resp", na, nb, t[2] == t[3], o)
+        return ("eq", t[1], t[2].split(":")[0], t[2] == t[3], o)
+    if t[0] == "tid":
+        kinds = "".join(x[0] for x in t[2].split(",")) if t[2] != "_" else ""
+        return ("tid", t[1], kinds, o)
+    return (t[0], o)
+
+
+def det_nontrivial(case, out):
+    # non-trivial: >= 2 header names (order can matter) / any `==` case / >= 1 timer / the rt batch
+    t = case.split(" ")
+    if t[0] == "hdr":
+        return t[5] != "_" and len([c for c in t[5].split(";") if c.startswith("h:")]) >= 2
+    if t[0] == "tid":
+        return "A" in t[2] or "T" in t[2]
+    return True
+
+
+def det_shrinks(case):
+    t = case.split(" ")
+    out = []
+    if t[0] == "hdr" and t[5] != "_":
+        calls = t[5].split(";")
+        for i in range(len(calls)):
+            rest = calls[:i] + calls[i + 1:]
+            out.append(" ".join(t[:5] + [";".join(rest) if rest else "_"]))
+    if t[0] == "tid" and t[2] != "_":
+        ops = t[2].split(",")
+        for i in range(len(ops)):
+            rest = ops[:i] + ops[i + 1:]
+            out.append(" ".join(t[:2] + [",".join(rest) if rest else "_"]))
+    if t[0] == "eq" and t[1] == "resp":
+        for side in (2, 3):
+            st, hs, body = t[side].split(":")
+            if hs != "_":
+                h = hs.split(",")
+                for i in range(len(h)):
+                    rest = h[:i] + h[i + 1:]
+                    new = f"{st}:{','.join(rest) if rest else '_'}:{body}"
+                    out.append(" ".join(t[:side] + [new] + t[side + 1:]))
+    if t[0] == "rtrep":
+        n = int(t[2])
+        if n > 1:
+            out.append(f"rtrep {t[1]} {n // 2}")
+    return out
+
+
+PROPS["C11"] = {
+    "streams": [
+        Stream("hdr", "det", "det", det_gen("hdr", 3000, 150000), nontrivial=det_nontrivial, shape=det_shape, shrink=det_shrinks),
+        Stream("eq", "det", "det", det_gen("eq", 6000, 200000), nontrivial=det_nontrivial, shape=det_shape, shrink=det_shrinks),
+        Stream("tid", "det", "det", det_gen("tid", 1500, 60000), nontrivial=det_nontrivial, shape=det_shape, shrink=det_shrinks),
+        Stream("rt", "det", "det", det_gen("rt", 2000, 60000), nontrivial=det_nontrivial, shape=det_shape, shrink=det_shrinks),
+    ],
+    "rule": "every case is answered from 6 independent replays: 4 in the harness process (each builds its requests / responses / "
+            "cores afresh, so every http-types header map has a fresh RandomState and the timer counter has moved on) and one in "
+            "each of 2 fresh `det worker` processes (fresh hash seeds, counter back at 1). Stream hdr: (API ∈ {capability, command}) "
+            "× request with 0-6 header() calls (names from a pool with mixed-case duplicates, random tokens, 0/1/2/3 values per call) "
+            "and optionally a body; observation = bincode of the single HttpRequest effect, which must be byte-identical in all "
+            "replays and equal to the model's (headers sorted by name, values in order). Stream eq: half `Response == Response` for "
+            "two ResponseBuilder descriptions with 0-4 header names (identical / one field tweaked / independent / prefix shapes), "
+            "each evaluated 30·n! times per replay (n = header names) or until both results were seen — the observation is the SET "
+            "of results, compared with the set the model computes over all pairs of iteration orders; half `==` on HttpRequest, "
+            "HttpHeader, HttpError, HttpResult, KeyValueOperation, KeyValueResult, TimeRequest, TimeResponse values built "
+            "independently from canonical descriptions (equal text ⇔ equal contents). Stream tid: (API) × history of 0-9 now / "
+            "notify_after / notify_at operations, all resolved; observation = whether the raw ids differed between in-process "
+            "replays, bincode of the TimeRequest effects after renaming ids by rank of first appearance, and the view — the last two "
+            "must agree in all replays. Stream rt: `rt gen <seed> <n> bridge | rt run` (the runtime engine's bridge-hosted programs: "
+            "serialized effect batches and views) executed in two separate processes, outputs compared byte for byte. "
+            "non-trivial = ≥ 2 header calls / any == case / ≥ 1 timer / the rt batch; distinct = distinct (kind, api or value kind, "
+            "size class, outcome class)",
+    "level_text": "Proof (15 theorems over M.Det): headers_order_independent (code as it is: for EVERY header map and EVERY "
+                  "permutation of its entries the serialized request is the same; via Lemmas.Det.emitHeaders_perm — stable insertion by "
+                  "name commutes for different names, induction over List.Perm) with the pinned-tree variant refuted "
+                  "(headers_order_dependent_unsorted, two-header witness); hdr_sound; timer ids: timer_ids_consecutive (n timers from "
+                  "counter k get k..k+n-1), timers_counter_renaming (∃ ρ injective on the ids in use, run k' = rename ρ (run k)), "
+                  "rank_rename_independent, tid_sound, tid_counter_free; derived_eq_sound. FULL statement response_eq_extensional "
+                  "(== on Response ⇔ same contents, for all iteration orders) is refuted in both directions "
+                  "(response_eq_accepts_different, response_eq_rejects_equal, response_eq_extensional_false; keys "
+                  "response-eq-accepts-different / response-eq-rejects-equal, known finding that must not be repaired because a "
+                  "baseline test relies on it); true restrictions response_eq_partial_no_headers, response_eq_partial_one_header, "
+                  "eq_sound_partial_no_headers. Determinism of the runtime proper (queues, slabs, executor) is the content of the "
+                  "rt engine's models being functions that agree exactly with the code (C01-C07); here it is additionally "
+                  "observed across two processes.",
+    "level_note": "Trusted: Lean kernel + 3 standard axioms; hand model M.Det (bincode layout of HttpRequest / TimeRequest; header map as "
+                  "a list of entries whose order is the parameter; Response::eq as two zips; timer counter as a parameter), checked "
+                  "against the real code on every run; the set-valued observation of Response == can in principle miss a possible "
+                  "result (probability < e^-30 per case with 30·n! evaluations per replay); memory addresses, wall-clock and thread "
+                  "timing are not consulted by any modelled code path (no theorem can show absence in unmodelled code — the "
+                  "cross-process byte comparison of the rt batch is the empirical check). The rt stream rebuilds the sibling `rt` "
+                  "harness binary (cargo, no-op when fresh) before using it.",
+    "assumptions": [
+        "hash-map iteration orders are arbitrary permutations of the entries (any may occur); names of a map are distinct",
+        "header names/values are ASCII (C14/C15)",
+        "timer histories consist of now / notify_after / notify_at (clears and their ids: C18)",
+    ],
+}
+
+
 # properties not claimed yet, with the reason shown in MANIFEST.not_applicable
 NOT_YET = {}
 # ---- C18 (engine timer) -----------------------------------------------------------------------------------------
@@ -907,10 +1022,12 @@ PROPS["C18"] = {
                   "ids_unique / ids_increasing for the wrapping usize counter; timers_independent (the part of a joint run the "
                   "specification attributes to one timer is a run of that timer alone, for direct and Core hosting); "
                   "C18_command_sound (the oracle accepts the model on every case, any number of timers, both hosts). Legacy "
-                  "capability API: C18_legacy_full (the same oracle incl. 'a clear of a timer that is not pending sends nothing') is "
-                  "FALSE on the unchanged code - C18_legacy_full_false proves it from the witness `start+clear in one update` and the "
+                  "capability API (any number of timers sharing the counter and CLEARED_TIMER_IDS): C18_legacy_full (the same "
+                  "kind of oracle incl. 'a clear of a timer that is not pending sends nothing') is FALSE on the unchanged code - "
+                  "C18_legacy_full_false proves it from the witness `start+clear in one update` and the "
                   "real code reproduces it (known finding legacy-clear-always-notifies); C18_legacy_partial proves every other "
-                  "clause for every legacy history. The model is tied to the code by running the same enumerated and sampled cases "
+                  "clause for every joint legacy history, legacy_ids_unique the invariant behind it (ids distinct and below the "
+                  "counter, the set in sync with every pending timer), legacy_cleared_reports the deferred Cleared. The model is tied to the code by running the same enumerated and sampled cases "
                   "through the real crux_time/crux_core code and the compiled model on every run and comparing line by line.",
     "level_note": "Trusted: Lean kernel + propext/Classical.choice/Quot.sound; the hand model M.Timer of command.rs:48-208, lib.rs:26-29, "
                   "93-225 and of the Command runtime facts it relies on (a task is polled only when woken; a request future sends its "
@@ -925,10 +1042,13 @@ PROPS["C18"] = {
         "fewer than 2^64 timers are created per process (the id counter is a wrapping AtomicUsize; ids_unique holds for any 2^64 "
         "consecutive allocations)",
         "the harness reads private ids through the Debug output of TimerHandle / CompletedTimerHandle",
+        "core / legacy host: a case ends at the first panic inside a Core call (the harness does not use that Core afterwards; "
+        "with the executor's re-queue loop a stale waker reaching the slot of the panicked task would spin run_all forever)",
     ],
 }
 
 ENGINE_TEXT = {
+    "det": "replays of HTTP / time / runtime histories in-process and in fresh processes, and == on independently built protocol values (Rust) vs M.Det (Lean), oracle S.Det",
     "timer": "real crux_time timers (command API driven directly and hosted in a Core; legacy capability API in a Core), harness as shell and app (Rust) vs M.Timer (Lean), oracle S.Timer",
     "codec": "real serde derive + bincode (bridge options) on every type TypeGen::register_app traces, and real Bridge outputs (Rust) vs the verified schema-driven codec M.Bincode run on the traced registry (Lean), oracle S.Codec",
     "http": "real crux_http request builders and response handling (capability + command API) through a real Core<App> (Rust) vs M.Http (Lean), oracle S.Http",
@@ -942,4 +1062,4 @@ ENGINE_TEXT = {
 HOOK_COMMITS = ["3b3ccf0", "fd94595", "1055c0e", "261bd7a"]
 
 # Only these are listed in MANIFEST.json as claimed (the lead adds an id here once its check has been reviewed and passes).
-CLAIMED = ["C01", "C02", "C03", "C04", "C05", "C06", "C07", "C08", "C09", "C10", "C12", "C13", "C15", "C16", "C17", "C19"]
+CLAIMED = ["C%02d" % i for i in range(1, 21)]
